@@ -67,28 +67,29 @@ def evaluate(ns, kind, sig, k, call):
       ba, berr = None, str(e)
   except Exception as e:   # pylint: disable=broad-except
     return {"undecided": f"inspect failed: {type(e).__name__}"}
-  if (err is None) != (berr is None):
-    return {"undecided": "call and inspect.signature.bind disagree"}
+  disagree = (err is None) != (berr is None)
+  # The real call is CPython's semantics; Signature.bind is a second opinion only (3.12's
+  # bind refuses `def f(a=0, /, **kw): ...; f(a=1)`, which the interpreter accepts).
   if err is not None:
-    return {"ok": False, "msg": err, "clause": clause(err, sig, call)}
+    return {"ok": False, "msg": err, "clause": clause(err, sig, call), "bind_differs": disagree}
   if not isinstance(val, tuple) or len(val) != len(names):
     return {"undecided": "unexpected result shape"}
   bound = []
   for n, v in zip(names, val):
     if n == "va":
       got = ["tuple", [_tname(x) for x in v]]
-      if tuple(ba.arguments["va"]) != tuple(v):
+      if not disagree and [_tname(x) for x in ba.arguments["va"]] != got[1]:
         return {"undecided": "bind and call differ on *va"}
     elif n == "kw":
       got = ["dict", {key: _tname(x) for key, x in sorted(v.items())}]
-      if dict(ba.arguments["kw"]) != dict(v):
+      if not disagree and {key: _tname(x) for key, x in ba.arguments["kw"].items()} != got[1]:
         return {"undecided": "bind and call differ on **kw"}
     else:
       got = _tname(v)
-      if ba.arguments[n] is not v and type(ba.arguments[n]) is not type(v):
+      if not disagree and _tname(ba.arguments[n]) != got:
         return {"undecided": f"bind and call differ on {n}"}
     bound.append(got)
-  return {"ok": True, "bound": bound, "clause": "", "msg": ""}
+  return {"ok": True, "bound": bound, "clause": "", "msg": "", "bind_differs": disagree}
 
 
 _QNAMES = re.compile(r"'([a-z][a-z0-9]*)'")
